@@ -44,12 +44,13 @@ import (
 )
 
 type NetCfg struct {
-	DropReq  float64 `json:"drop_req,omitempty"`
-	DropResp float64 `json:"drop_resp,omitempty"`
-	Dup      float64 `json:"dup,omitempty"`  // raft messages only
-	Late     float64 `json:"late,omitempty"` // hold a message 0.5..3 s
-	MinLatMs int     `json:"min_lat_ms,omitempty"`
-	JitterMs int     `json:"jitter_ms,omitempty"`
+	DropReq   float64 `json:"drop_req,omitempty"`
+	DropResp  float64 `json:"drop_resp,omitempty"`
+	Dup       float64 `json:"dup,omitempty"`        // raft messages only
+	Late      float64 `json:"late,omitempty"`       // hold a message 0.5..3 s
+	CutStream float64 `json:"cut_stream,omitempty"` // a server stream breaks off after some of its messages
+	MinLatMs  int     `json:"min_lat_ms,omitempty"`
+	JitterMs  int     `json:"jitter_ms,omitempty"`
 }
 
 type W3Cfg struct {
@@ -240,6 +241,7 @@ func (s *Sim) popEvent() *simEvent {
 // set-up / tear-down of the process-wide hooks
 
 var w3Once sync.Once
+var devNull *os.File
 var fatalSink func(msg string, fields logrus.Fields)
 
 type fatalHook struct{}
@@ -257,11 +259,7 @@ func (fatalHook) Fire(e *logrus.Entry) error {
 func w3Global() {
 	w3Once.Do(func() {
 		logrus.SetOutput(io.Discard)
-		// server.go gives Badger a fresh logrus logger that writes to os.Stderr;
-		// panics and fatal errors of the runtime still reach the real fd 2.
-		if devnull, err := os.OpenFile(os.DevNull, os.O_WRONLY, 0); err == nil {
-			os.Stderr = devnull
-		}
+		devNull, _ = os.OpenFile(os.DevNull, os.O_WRONLY, 0)
 		logrus.SetLevel(logrus.ErrorLevel)
 		logrus.AddHook(fatalHook{})
 		logrus.StandardLogger().ExitFunc = func(code int) {
@@ -439,7 +437,15 @@ func (s *Sim) startNode(n *simNode) error {
 	n.alive = true // hooks fired during setup belong to this incarnation
 	var err error
 	withTag(n.id*1000+uint64(n.inc), func() {
+		// server.go gives Badger a fresh logrus logger that captures os.Stderr when it is
+		// created: point it at /dev/null for the duration of setup only (fatal messages of
+		// other loggers and of the runtime must stay visible to the parent)
+		oldStderr := os.Stderr
+		if devNull != nil {
+			os.Stderr = devNull
+		}
 		defer func() {
+			os.Stderr = oldStderr
 			if r := recover(); r != nil {
 				err = fmt.Errorf("panic in %s: %v", topFrame(debug.Stack()), r)
 			}
@@ -982,6 +988,12 @@ func (s *Sim) deliver(c *simCall, tgt *simNode, inc int, isRaft bool) {
 				}
 				s.lost(c)
 				return
+			}
+			if s.faultsOn && c.stream && err == nil && len(resp) > 0 && s.rnet.Bool(s.cfg.Net.CutStream) {
+				// the stream breaks off after some of its messages: the receiver gets a prefix and an error
+				resp = resp[:s.rnet.Intn(len(resp))]
+				err = status.Error(codes.Unavailable, "simulated network: stream reset")
+				s.out.Stat("fault_stream_cut", 1)
 			}
 			s.at(s.latency(), "respond", func() {
 				if !isRaft {
